@@ -198,27 +198,91 @@ type XDesc struct {
 	ArtifactType string            `json:"artifactType,omitempty"`
 }
 
+// xDoc holds the members of a body that the getters of its media type expose.
 type xDoc struct {
-	SchemaVersion int               `json:"schemaVersion"`
-	MediaType     string            `json:"mediaType"`
-	ArtifactType  string            `json:"artifactType"`
-	Config        *XDesc            `json:"config"`
-	Layers        []XDesc           `json:"layers"`
-	Manifests     []XDesc           `json:"manifests"`
-	Blobs         []XDesc           `json:"blobs"`
-	Subject       *XDesc            `json:"subject"`
-	Annotations   map[string]string `json:"annotations"`
-	FSLayers      []struct {
-		BlobSum string `json:"blobSum"`
-	} `json:"fsLayers"`
+	Config      *XDesc
+	Layers      []XDesc
+	Manifests   []XDesc
+	Subject     *XDesc
+	Annotations map[string]string
 }
 
-func parseDoc(doc []byte) (*xDoc, error) {
-	var d xDoc
-	if err := json.Unmarshal(doc, &d); err != nil {
-		return nil, err
+// parseDoc decodes a body with the struct of its (reported) media type; members
+// that media type does not define are not looked at.
+func parseDoc(mt string, doc []byte) (*xDoc, error) {
+	d := &xDoc{}
+	switch mt {
+	case mtOCIManifest:
+		var x struct {
+			Config      *XDesc            `json:"config"`
+			Layers      []XDesc           `json:"layers"`
+			Subject     *XDesc            `json:"subject"`
+			Annotations map[string]string `json:"annotations"`
+		}
+		if err := json.Unmarshal(doc, &x); err != nil {
+			return nil, err
+		}
+		d.Config, d.Layers, d.Subject, d.Annotations = x.Config, x.Layers, x.Subject, x.Annotations
+	case mtDocker2:
+		var x struct {
+			Config      *XDesc            `json:"config"`
+			Layers      []XDesc           `json:"layers"`
+			Annotations map[string]string `json:"annotations"`
+		}
+		if err := json.Unmarshal(doc, &x); err != nil {
+			return nil, err
+		}
+		d.Config, d.Layers, d.Annotations = x.Config, x.Layers, x.Annotations
+	case mtOCIIndex:
+		var x struct {
+			Manifests   []XDesc           `json:"manifests"`
+			Subject     *XDesc            `json:"subject"`
+			Annotations map[string]string `json:"annotations"`
+		}
+		if err := json.Unmarshal(doc, &x); err != nil {
+			return nil, err
+		}
+		d.Manifests, d.Subject, d.Annotations = x.Manifests, x.Subject, x.Annotations
+	case mtDocker2List:
+		var x struct {
+			Manifests   []XDesc           `json:"manifests"`
+			Annotations map[string]string `json:"annotations"`
+		}
+		if err := json.Unmarshal(doc, &x); err != nil {
+			return nil, err
+		}
+		d.Manifests, d.Annotations = x.Manifests, x.Annotations
+	case mtOCIArtifact:
+		var x struct {
+			Blobs       []XDesc           `json:"blobs"`
+			Subject     *XDesc            `json:"subject"`
+			Annotations map[string]string `json:"annotations"`
+		}
+		if err := json.Unmarshal(doc, &x); err != nil {
+			return nil, err
+		}
+		d.Layers, d.Subject, d.Annotations = x.Blobs, x.Subject, x.Annotations
+	case mtDocker1, mtDocker1Sig:
+		var x struct {
+			FSLayers []struct {
+				BlobSum string `json:"blobSum"`
+			} `json:"fsLayers"`
+		}
+		if err := json.Unmarshal(doc, &x); err != nil {
+			return nil, err
+		}
+		for _, f := range x.FSLayers {
+			d.Layers = append(d.Layers, XDesc{Digest: f.BlobSum})
+		}
+	default:
+		return nil, fmt.Errorf("media type %q is not a manifest type", mt)
 	}
-	return &d, nil
+	return d, nil
+}
+
+// trimJSONSpace removes JSON insignificant whitespace around a document.
+func trimJSONSpace(b []byte) []byte {
+	return bytes.Trim(b, " \t\r\n")
 }
 
 // ---- normalised equality (nil and empty slices / maps / data are one value)
